@@ -39,6 +39,16 @@ func NewBitArray(bits int) *BitArray {
 	}
 }
 
+// IsConsistent reports whether the number of bits and the number of backing
+// words agree (nil is the valid empty array). Arrays decoded from the network
+// must be checked before any other method is used on them.
+func (bA *BitArray) IsConsistent() bool {
+	if bA == nil {
+		return true
+	}
+	return bA.Bits > 0 && len(bA.Elems) == (bA.Bits+63)/64
+}
+
 func (bA *BitArray) Size() int {
 	if bA == nil {
 		return 0
